@@ -265,6 +265,16 @@ def HOp.fits (e : HEnv) (t : TD α) : HOp α → Prop
   | .capacityCall (some k) => t.data.length + k ≤ e.cap
   | _ => True
 
+/-- the requests the plain model cannot express, stated outright: more cells than a `Vec<T>` holds, or a sorted line longer than
+    a side table (`C01_over_capacity_rejected`: each is rejected with a panic and leaves the array as it was) -/
+def HOp.overCap (e : HEnv) (t : TD α) : HOp α → Prop
+  | .insertRow _ it _ | .insertCol _ it _ => e.cap < t.data.length + it.claimed
+  | .inplace (.sortRow _ _) => e.lim < t.numCols
+  | .inplace (.sortCol _ _) => e.lim < t.numRows
+  | .newArr c r _ | .initArr c r _ => e.cap < c * r
+  | .capacityCall (some k) => e.cap < t.data.length + k
+  | _ => False
+
 def hfits (e : HEnv) : TD α → List (HOp α) → Prop
   | _, [] => True
   | t, op :: ops => op.spareOk ∧ op.fits e t ∧ hfits e (hstep e t op) ops
